@@ -154,6 +154,8 @@ Doc == [
   protein |-> [not_required |-> {<<"INCLUDE_PROTEIN", "False">>}], fat |-> [not_required |-> {<<"INCLUDE_FAT", "False">>}],
   meat_strategy |-> [reduce_breeding |-> {<<"BREEDING_STRATEGY", "reduced">>}, baseline_breeding |-> {<<"BREEDING_STRATEGY", "baseline">>},
                      feed_only_ruminants |-> {<<"BREEDING_STRATEGY", "feed_only_ruminants">>}],
+  \* ("rowlist:<prefix>": the list of the row's columns <prefix>1 .. <prefix>12, as they are)
+  seasonality |-> [country |-> {<<"SEASONALITY", "rowlist:seasonality_m">>}],
   nutrition |-> [baseline |-> {<<"NUTRITION.KCALS_DAILY", "2100">>}, catastrophe |-> {<<"NUTRITION.KCALS_DAILY", "2100">>}],
   \* (the caps on feed and biofuel apply under both values)
   intake_constraints |-> [enabled |-> {<<"MAX_SEAWEED_AS_PERCENT_KCALS_HUMANS", "10">>, <<"MAX_CELLULOSIC_SUGAR_AS_PERCENT_KCALS_HUMANS", "40">>,
